@@ -10,7 +10,7 @@ from fparser.two.utils import Base, walk
 
 
 def units(tier):
-    return PG.program_units(tier, "copy_prog", ics=(True, False), rotate=True)
+    return PG.program_units(tier, "copy_prog", ics=(True, False), rotate=True) + PG.corpus_units(tier, "copy_prog")
 
 
 def meta(tier):
